@@ -44,7 +44,7 @@ func compilerUnproven(p *core.Prog, rels []string) (map[string]bool, int, error)
 	}
 	cmd := exec.Command("go", args...)
 	cmd.Dir = p.Repo
-	cmd.Env = append(os.Environ(), "GOFLAGS=-mod=mod", "GOPROXY=off", "GOWORK=off", "CGO_ENABLED=0")
+	cmd.Env = append(append(os.Environ(), "GOFLAGS=-mod=mod", "GOPROXY=off", "GOWORK=off", "CGO_ENABLED=0"), p.CfgEnv...)
 	var out bytes.Buffer
 	cmd.Stdout = &out
 	cmd.Stderr = &out
